@@ -445,7 +445,7 @@ func (cl *Cluster) processLocked(nc *NodeConn) {
 		if len(pc.Toks) > 0 {
 			pc.Fid = fmt.Sprintf("%s.%d.%s", pc.Toks[0].C, pc.Toks[0].I, pc.Toks[0].S)
 		}
-		ev := Event{Ev: "recv", N: nc.node.Name, Conn: nc.Id, K: args[0], Fid: pc.Fid, Toks: pc.Toks}
+		ev := Event{Ev: "recv", N: nc.node.Name, Conn: nc.Id, K: name, Txt: args[0], Fid: pc.Fid, Toks: pc.Toks}
 		if cl.cfg.RawLog {
 			ev.Raw = hex.EncodeToString(raw)
 		}
